@@ -535,6 +535,10 @@ Lsr = make_regreg("lsr", 0b0100000011)
 Asr = make_regreg("asr", 0b0100000100)
 Rsb = make_regreg("rsb", 0b0100001001)
 Mvn = make_regreg("mvn", 0b0100001111, read_rdn=False)
+Sxth = make_regreg("sxth", 0b1011001000, read_rdn=False)
+Sxtb = make_regreg("sxtb", 0b1011001001, read_rdn=False)
+Uxth = make_regreg("uxth", 0b1011001010, read_rdn=False)
+Uxtb = make_regreg("uxtb", 0b1011001011, read_rdn=False)
 
 
 class Cmp2(ThumbInstruction):
@@ -1274,6 +1278,71 @@ def pattern_rem_u32(context, tree, c0, c1):
     d = context.new_reg(LowArmRegister)
     context.emit(Sub3(d, c0, d3))
     return d
+
+
+def extend(context, instruction, value):
+    """Sign or zero extend the low bits of a value into a new register"""
+    d = context.new_reg(LowArmRegister)
+    context.emit(instruction(d, value))
+    return d
+
+
+# The quotient and remainder depend on all bits of the operands. The high
+# bits of a register with an 8 or 16 bit value are not defined, extend first:
+@thumb_isa.pattern("reg", "DIVI8(reg, reg)", size=14)
+def pattern_div_i8(context, tree, c0, c1):
+    a = extend(context, Sxtb, c0)
+    b = extend(context, Sxtb, c1)
+    return pattern_div32(context, tree, a, b)
+
+
+@thumb_isa.pattern("reg", "DIVI16(reg, reg)", size=14)
+def pattern_div_i16(context, tree, c0, c1):
+    a = extend(context, Sxth, c0)
+    b = extend(context, Sxth, c1)
+    return pattern_div32(context, tree, a, b)
+
+
+@thumb_isa.pattern("reg", "DIVU8(reg, reg)", size=14)
+def pattern_div_u8(context, tree, c0, c1):
+    a = extend(context, Uxtb, c0)
+    b = extend(context, Uxtb, c1)
+    return pattern_div_u32(context, tree, a, b)
+
+
+@thumb_isa.pattern("reg", "DIVU16(reg, reg)", size=14)
+def pattern_div_u16(context, tree, c0, c1):
+    a = extend(context, Uxth, c0)
+    b = extend(context, Uxth, c1)
+    return pattern_div_u32(context, tree, a, b)
+
+
+@thumb_isa.pattern("reg", "REMI8(reg, reg)", size=10, cycles=14, energy=7)
+def pattern_rem_i8(context, tree, c0, c1):
+    a = extend(context, Sxtb, c0)
+    b = extend(context, Sxtb, c1)
+    return pattern_rem32(context, tree, a, b)
+
+
+@thumb_isa.pattern("reg", "REMI16(reg, reg)", size=10, cycles=14, energy=7)
+def pattern_rem_i16(context, tree, c0, c1):
+    a = extend(context, Sxth, c0)
+    b = extend(context, Sxth, c1)
+    return pattern_rem32(context, tree, a, b)
+
+
+@thumb_isa.pattern("reg", "REMU8(reg, reg)", size=10, cycles=14, energy=7)
+def pattern_rem_u8(context, tree, c0, c1):
+    a = extend(context, Uxtb, c0)
+    b = extend(context, Uxtb, c1)
+    return pattern_rem_u32(context, tree, a, b)
+
+
+@thumb_isa.pattern("reg", "REMU16(reg, reg)", size=10, cycles=14, energy=7)
+def pattern_rem_u16(context, tree, c0, c1):
+    a = extend(context, Uxth, c0)
+    b = extend(context, Uxth, c1)
+    return pattern_rem_u32(context, tree, a, b)
 
 
 @thumb_isa.pattern("reg", "XORI32(reg, reg)", size=4)
